@@ -21,6 +21,7 @@ structure Dump where
   catName : Std.HashMap String String := {}
   tz : Std.HashSet String := {}
   subst : Std.HashMap String Substance := {}
+  symbols : Std.HashMap String String := {}
 
 def Dump.addLine (d : Dump) (line : String) : Dump :=
   match line.trimAscii.toString.splitOn " " with
@@ -42,6 +43,7 @@ def Dump.addLine (d : Dump) (line : String) : Dump :=
   | ["category", n, c] => { d with category := d.category.insert (unhex n) (unhex c) }
   | ["catname", c, n] => { d with catName := d.catName.insert (unhex c) (unhex n) }
   | ["tz", n] => { d with tz := d.tz.insert (unhex n) }
+  | ["symbol", sym, n] => { d with symbols := d.symbols.insert (unhex sym) (unhex n) }
   | ["subst", n, v, dims] =>
     match parseNumeric v with
     | some v => { d with subst := d.subst.insert (unhex n) { amount := ⟨v, parseDim dims⟩, name := unhex n, props := [] } }
@@ -70,7 +72,10 @@ def Dump.toRegistry (d : Dump) : Registry :=
     category := fun n => d.category[n]?
     categoryName := fun n => d.catName[n]?
     isQuantityName := fun n => qnames.contains n
-    substance := fun n => d.subst[n]? }
+    substance := fun n => d.subst[n]?
+    isFormula := fun n =>
+      (Formula.molarMass (fun sym => (d.symbols[sym]?).bind fun full => (d.subst[full]?).bind fun s =>
+        match s.get "molar_mass" with | .ok v => (if v.unit == Formula.molarMassUnit then some 0 else none) | _ => none) n).isSome }
 
 /-- dims as printed in answers: plain names raw, others `x<hex>` -/
 def parseDimEnc (s : String) : Dim :=
